@@ -48,9 +48,12 @@ func c14Filter(target, query []byte, p c14Params, dir string, prior []byte) ([]f
 	}
 	defer m.CleanUp()
 	f := filter.New(ki, &filter.Params{WordSize: p.K, MinMatch: p.N, MaxError: p.E, TubeOffset: p.Offset})
-	if prior != nil && !p.Self {
+	if prior != nil {
 		ps := linear.NewSeq("prior", alphabet.BytesToLetters(append([]byte(nil), prior...)), alphabet.DNA)
-		if err := f.Filter(ps, false, p.Complement, m); err != nil {
+		if p.Self { // the same self comparison run twice on one Filter: the second answer is the one that is judged
+			ps = ts
+		}
+		if err := f.Filter(ps, p.Self, p.Complement, m); err != nil {
 			return nil, fmt.Errorf("Filter (first use): %v", err)
 		}
 		for {
@@ -300,6 +303,10 @@ func c14Case(r *obs.Run, i int) {
 			}
 		}()
 		var prior []byte
+		if idx%3 == 1 && p.Self {
+			prior = Q
+			r.Count("self_comparisons_run_twice_on_one_filter", 1)
+		}
 		if idx%3 == 1 && !p.Self {
 			// a previous query of the same length sharing material with this one, so that tubes are left partly filled
 			prior = append([]byte(nil), Q...)
